@@ -591,4 +591,14 @@ theorem theta_regenerated {F : Type} [Field F] [LinearOrder F] [CharZero F] (rr 
   · unfold Gen.zAngle; push_cast; ring
   · unfold Gen.zThetaArg; ext <;> simp
 
+/-- **the radius `r = np.abs(rr + 1j*cc)` of `zernike_coordinates`, regenerated** (`Gen.zRadArg`: real and imaginary part of the argument of
+`np.abs`, split from the source expression): the model's `zRad` — which `rho`, `zRmax` and the theorems `rho_one_at_farthest` / `rho_one_is_farthest`
+are about — is the modulus `sqrt(re² + im²)` of exactly that argument, i.e. the Euclidean distance `sqrt(rr² + cc²)` from the origin of the mesh -/
+theorem radius_regenerated {F : Type} [Field F] [LinearOrder F] (sqrt : F → F) (mask : Arr Bool) (s : F × F) (i j : Int) :
+    zRad sqrt mask s i j =
+      sqrt ((Gen.zRadArg (zRR mask s i) (zCC mask s j)).1 * (Gen.zRadArg (zRR mask s i) (zCC mask s j)).1 +
+            (Gen.zRadArg (zRR mask s i) (zCC mask s j)).2 * (Gen.zRadArg (zRR mask s i) (zCC mask s j)).2) := by
+  unfold zRad Gen.zRadArg
+  first | rfl | (congr 1; simp only; ring)
+
 end Lentil.C11
